@@ -28,7 +28,71 @@ func Lstat(name string) (fs.FileInfo, error) {
 	if W == nil {
 		return os.Lstat(name)
 	}
+	p := W.resolveNoFollow(name)
+	if n, e := W.lookup(p); e == 0 && n.link != "" {
+		seq, _ := W.begin(OpStat, p)
+		W.log(&TraceEv{Seq: seq, Op: OpStat, Path: p, Res: "ok", Digest: "link"})
+		return fileInfo{name: filepath.Base(p), size: int64(len(n.link)), mode: fs.ModeSymlink | 0o777, mt: W.now()}, nil
+	}
 	return W.stat(name)
+}
+
+func Symlink(oldname, newname string) error {
+	if W == nil {
+		return os.Symlink(oldname, newname)
+	}
+	p, ev, err := W.simple(OpMkdir, newname)
+	defer W.log(ev)
+	if err != nil {
+		return &os.LinkError{Op: "symlink", Old: oldname, New: newname, Err: err.(*fs.PathError).Err}
+	}
+	p = W.resolveNoFollow(newname)
+	if _, e := W.lookup(p); e == 0 {
+		ev.Res = "EEXIST"
+		return &os.LinkError{Op: "symlink", Old: oldname, New: newname, Err: syscall.EEXIST}
+	}
+	parent, e := W.lookup(filepath.Dir(p))
+	if e == 0 && !parent.dir {
+		e = syscall.ENOTDIR
+	}
+	ev.Res = errnoName(e)
+	if e != 0 {
+		return &os.LinkError{Op: "symlink", Old: oldname, New: newname, Err: e}
+	}
+	W.fs[p] = &node{link: oldname, mode: fs.ModeSymlink | 0o777}
+	return nil
+}
+
+func Readlink(name string) (string, error) {
+	if W == nil {
+		return os.Readlink(name)
+	}
+	p := W.resolveNoFollow(name)
+	n, e := W.lookup(p)
+	if e == 0 && n.link == "" {
+		e = syscall.EINVAL
+	}
+	if e != 0 {
+		return "", pathErr("readlink", name, e)
+	}
+	return n.link, nil
+}
+
+// EvalSymlinks replaces filepath.EvalSymlinks.
+func EvalSymlinks(path string) (string, error) {
+	if W == nil {
+		return filepath.EvalSymlinks(path)
+	}
+	p := W.resolve(path)
+	if _, e := W.lookup(p); e != 0 {
+		return "", pathErr("lstat", path, e)
+	}
+	if !filepath.IsAbs(path) {
+		if rel, err := filepath.Rel(W.Cwd, p); err == nil {
+			return rel, nil
+		}
+	}
+	return p, nil
 }
 
 func ReadFile(name string) ([]byte, error) {
@@ -127,9 +191,12 @@ func Exit(code int) {
 // simulated environment: a few common variables exist and their values differ
 // from one logical epoch to the next, so that a value leaking into the output
 // is seen as a difference between two runs, deterministically.
-var simEnvKeys = []string{"HOME", "HOSTNAME", "LANG", "LOGNAME", "SHELL", "TERM", "TZ", "USER"}
+var simEnvKeys = []string{"HOME", "HOSTNAME", "LANG", "LOGNAME", "SHELL", "TERM", "TMPDIR", "TZ", "USER"}
 
 func simEnv(key string) (string, bool) {
+	if key == "TMPDIR" {
+		return TempDir(), true
+	}
 	for _, k := range simEnvKeys {
 		if k == key {
 			return fmt.Sprintf("%s-%d", strings.ToLower(key), W.Epoch%100003), true
@@ -179,11 +246,21 @@ func Hostname() (string, error) {
 	return fmt.Sprintf("simhost%d", W.Epoch%9973), nil
 }
 
+// TempDir follows $TMPDIR like the real one; the simulated TMPDIR differs from
+// epoch to epoch (per-user temporary directories, CI runners) and always lies
+// on the /tmp device. NewWorld creates it.
 func TempDir() string {
 	if W == nil {
 		return os.TempDir()
 	}
-	return "/tmp"
+	return tempDirOf(W.Epoch)
+}
+
+func tempDirOf(epoch int64) string {
+	if epoch%3 == 0 {
+		return "/tmp"
+	}
+	return fmt.Sprintf("/tmp/tmp-%d", epoch%100003)
 }
 
 func UserHomeDir() (string, error) {
